@@ -195,6 +195,40 @@ func init() {
 					c.Write(b)
 				}
 				c.Close()
+			case "tcp2real":
+				// two connections to the same listener, their segments written alternately (A, B, A, B, ...; "-" = nothing)
+				ca, err := net.Dial("tcp", addr)
+				if err != nil {
+					emit("dialerr")
+					return
+				}
+				cb, err := net.Dial("tcp", addr)
+				if err != nil {
+					emit("dialerr")
+					return
+				}
+				var all [2][]byte
+				for i, h := range f[2:] {
+					b := unhexArg(h)
+					if len(b) == 0 {
+						continue
+					}
+					all[i%2] = append(all[i%2], b...)
+					if i%2 == 0 {
+						ca.Write(b)
+					} else {
+						cb.Write(b)
+					}
+					time.Sleep(1500 * time.Microsecond)
+				}
+				ca.Close()
+				cb.Close()
+				for _, a := range all {
+					total += bytes.Count(a, []byte("\n"))
+					if len(a) > 0 && a[len(a)-1] != '\n' {
+						total++
+					}
+				}
 			case "tcpreal":
 				c, err := net.Dial("tcp", addr)
 				if err != nil {
